@@ -482,6 +482,11 @@ class MinFlowDecomp(pathmodel.AbstractPathModelDAG): # Note that we inherit from
 
             subgraph_subpath_constraints = [c for c in self.subpath_constraints if all(n in subgraph.nodes() for n in c)]
             subgraph_edges_to_ignore = [e for e in self.edges_to_ignore if all(n in subgraph.nodes() for n in e)]
+
+            # A window in which every edge is ignored has nothing to decompose (and no maximum flow value to bound the weights with)
+            if all(e in self.edges_to_ignore for e in subgraph.edges()):
+                right_node_index = min(right_node_index + MinFlowDecomp.subgraph_lowerbound_shift, self.G.number_of_nodes() - 1)
+                continue
             
             subgraph_optimization_options = copy.deepcopy(self.optimization_options)
             subgraph_optimization_options["use_subgraph_scanning_lowerbound"] = False
